@@ -21,7 +21,7 @@ class RefHeap:
 
 def gen_history(rng, tier):
     shape = rng.choice(['uniform', 'uniform', 'burst', 'adversarial', 'equal'])
-    n = rng.choice([3, 6, 12, 25, 50, 100, 200] if tier == 'quick' else [6, 25, 100, 200, 400, 800])
+    n = rng.choice([3, 6, 12, 25, 50, 100, 200] if tier == 'quick' else [6, 25, 100, 200, 400, 800, 3000])
     sizes_pool = rng.choice([[4, 8, 16], [4, 4, 8, 16, 32, 64], list(range(1, 65)), [1, 1, 1, 2, 3], [4], [1, 2, 4, 8, 16, 32, 64]])
     ops = []
     live = 0
@@ -41,11 +41,14 @@ def gen_history(rng, tier):
                 ops.append(['a', size()]); live += 1
             for _ in range(rng.randint(0, min(live, 8))):
                 ops.append([rng.choice(['fo', 'fa']), rng.randrange(1 << 16)]); live -= 1
+            if rng.random() < 0.1:      # drain completely in mid-history: the heap shrinks to zero and grows again
+                for _ in range(live): ops.append(['fa', -1])
+                live = 0
     else:  # adversarial: fill, then free in address order / reverse / every other / middle-out, then refill
         k = max(2, n // 3)
         for _ in range(k):
             ops.append(['a', size()]); live += 1
-        pat = rng.choice(['asc', 'desc', 'alt', 'alt2', 'mid'])
+        pat = rng.choice(['asc', 'desc', 'alt', 'alt2', 'mid', 'pair'])
         if pat == 'asc':
             for _ in range(k - rng.randint(0, 2)): ops.append(['fa', 0]); live -= 1
         elif pat == 'desc':
@@ -58,6 +61,13 @@ def gen_history(rng, tier):
             j = 0
             for _ in range(k // 2): ops.append(['fa', j]); live -= 1; j += 1
             for _ in range(k): ops.append(['a', rng.choice([1, 2, 4, size()])]); live += 1
+        elif pat == 'pair':  # free two neighbours, then ask for exactly their sum (only a coalesced chunk fits)
+            s0 = size()
+            ops[:] = [['a', s0] for _ in range(k)]; live = k
+            for _ in range(max(1, k // 4)):
+                j = rng.randrange(max(1, live - 1))
+                ops.append(['fa', j]); ops.append(['fa', j]); live -= 2
+                ops.append(['a', 2 * s0]); live += 1
         else:
             for _ in range(k - 1): ops.append(['fa', live // 2]); live -= 1
         for _ in range(max(0, n - len(ops))):
